@@ -65,12 +65,13 @@ def _m5():
                       if k in ('s0', 's1')}
     cfg['max_apps'] = 2
     cfg['allow_nocycle'] = False
+    cfg['allow_late'] = True
     cfg['events'] = mastercfg.ev(
         ('app+', 'sm'),
         ('pres-', 's0'), ('pres+', 's0', 0),
         ('state', 's0', 'frozen', 0), ('state', 's1', 'frozen', -1),
         ('state', 's0', 'up', -1), ('bl', 1), ('bl', 0),
-        ('tick', 10), ('tick', 25), ('noop',), ('restart',),
+        ('tick', 10), ('tick', 25), ('tick', 40), ('noop',), ('restart',),
     )
     return cfg
 
@@ -79,10 +80,10 @@ def configs(ctx):
     if ctx.quick:
         return [('K1', _k1(), 4, 1),
                 ('M1', _m1(), 3, 0, _masterprop.MasterSpec),
-                ('M5', _m5(), 6, 0, _masterprop.MasterSpec)]
+                ('M5', _m5(), 6, 1, _masterprop.MasterSpec)]
     return [('K1', _k1(), 6, 1),
             ('M1', _m1(), 5, 1, _masterprop.MasterSpec),
-            ('M5', _m5(), 9, 0, _masterprop.MasterSpec)]
+            ('M5', _m5(), 8, 1, _masterprop.MasterSpec)]
 
 
 RULE = ('BFS over down/up/frozen transitions, clock advances around the '
